@@ -27,6 +27,7 @@ def main() -> int:
     ap.add_argument('--checks')
     ap.add_argument('--src')
     ap.add_argument('--tier', default='quick')
+    ap.add_argument('--as', dest='as_n', help='store under seeded/<ID>-<AS> instead of <ID>-<n> (later seeding rounds)')
     a = ap.parse_args()
     src = a.src or f'/tmp/seed/{a.prop}-out'
     patch, demo, notes = (os.path.join(src, f'{x}{a.n}.{e}') for x, e in (('patch', 'diff'), ('demo', 'py'), ('notes', 'md')))
@@ -65,7 +66,7 @@ def main() -> int:
         meta['confirmed'] = ok
         print(json.dumps(meta, indent=1))
         if ok:
-            out = os.path.join(VERIF, 'seeded', f'{a.prop}-{a.n}')
+            out = os.path.join(VERIF, 'seeded', f'{a.prop}-{a.as_n or a.n}')
             os.makedirs(out, exist_ok=True)
             shutil.copy(patch, os.path.join(out, 'patch.diff'))
             shutil.copy(demo, os.path.join(out, 'demo.py'))
